@@ -81,8 +81,9 @@ type c13Env struct {
 	wmu sync.Mutex // serialises durable writes and their snapshots
 	mu  sync.Mutex // protects everything below
 
-	rawDB    kvdb.Backend
-	observer *boltArbitratorLog
+	rawDB      kvdb.Backend
+	observer   *boltArbitratorLog
+	nurseryObs *NurseryStore
 
 	epoch   int
 	alive   bool
@@ -115,6 +116,15 @@ type c13Env struct {
 	spends      map[wire.OutPoint]*chainntnfs.SpendDetail
 	confirmable map[string]bool
 	offered     map[wire.OutPoint]bool
+	// transactions published by any incarnation (stay in the mempool across
+	// restarts) and confirmed transactions
+	pubTxs   map[chainhash.Hash]bool
+	confs    map[chainhash.Hash]int32
+	confSubs map[chainhash.Hash][]chan *chainntnfs.TxConfirmation
+	wantConf map[chainhash.Hash]*c13PendingConf
+	// sweeps of a live sweeper are broadcast with the next block; only then can
+	// they confirm while the node is down
+	mempool map[wire.OutPoint]bool
 	// outputs handed to the utxo nursery (durable in the nursery store):
 	// label of the htlc -> second-level output the nursery will sweep
 	incubated map[string]wire.OutPoint
@@ -288,6 +298,8 @@ type c13DB struct {
 	walletdb.DB
 	env *c13Env
 	ep  int
+	// nursery: this handle backs the utxo nursery's store
+	nursery bool
 }
 
 func (d *c13DB) Update(f func(tx walletdb.ReadWriteTx) error, reset func()) error {
@@ -300,8 +312,47 @@ func (d *c13DB) Update(f func(tx walletdb.ReadWriteTx) error, reset func()) erro
 	if err := d.DB.Update(f, reset); err != nil {
 		return err
 	}
+	if d.nursery {
+		d.env.afterWrite(d.ep, fmt.Sprintf("U # ep=%d %s", d.ep, d.env.nurserySnapshot()))
+		return nil
+	}
 	d.env.afterWrite(d.ep, fmt.Sprintf("W # ep=%d %s", d.ep, d.env.snapshot()))
 	return nil
+}
+
+// nurserySnapshot prints the durable state of the utxo nursery store.
+func (e *c13Env) nurserySnapshot() string {
+	if e.nurseryObs == nil {
+		return "N=[]"
+	}
+	var items []string
+	classOf := map[wire.OutPoint]uint32{}
+	hs, _ := e.nurseryObs.HeightsBelowOrEqual(1 << 30)
+	for _, h := range hs {
+		kids, _, _ := e.nurseryObs.FetchClass(h)
+		for i := range kids {
+			classOf[kids[i].OutPoint()] = h
+		}
+	}
+	_ = e.nurseryObs.ForChanOutputs(&wire.OutPoint{}, func(k, _ []byte) error {
+		if len(k) < 4 {
+			return nil
+		}
+		if len(k) < 38 {
+			return nil
+		}
+		var op wire.OutPoint
+		copy(op.Hash[:], k[4:36])
+		op.Index = uint32(k[36])<<8 | uint32(k[37])
+		it := fmt.Sprintf("%s:%s", e.label(op), string(k[:4]))
+		if string(k[:4]) == "kndr" {
+			it += fmt.Sprintf("@%d", classOf[op])
+		}
+		items = append(items, it)
+		return nil
+	}, func() { items = nil })
+	sort.Strings(items)
+	return fmt.Sprintf("N=[%s]", strings.Join(items, ","))
 }
 
 func (d *c13DB) View(f func(tx walletdb.ReadTx) error, reset func()) error {
@@ -342,6 +393,30 @@ func (e *c13Env) deadOf(ep int) chan struct{} {
 	return c
 }
 
+type c13PendingConf struct {
+	tx *wire.MsgTx
+	op wire.OutPoint
+}
+
+// confirmTx: a published transaction confirms now. Caller holds mu.
+func (e *c13Env) confirmTx(pc *c13PendingConf) {
+	h := pc.tx.TxHash()
+	if _, ok := e.confs[h]; ok {
+		return
+	}
+	e.confs[h] = e.height
+	e.pf("X conf %s height=%d", e.label(pc.op), e.height)
+	conf := &chainntnfs.TxConfirmation{BlockHeight: uint32(e.height), Tx: pc.tx}
+	for _, ch := range e.confSubs[h] {
+		select {
+		case ch <- conf:
+		default:
+		}
+	}
+	delete(e.confSubs, h)
+	e.addSpend(pc.op, pc.tx, 0, true)
+}
+
 // --- notifier ---------------------------------------------------------------
 
 type c13Notifier struct {
@@ -349,13 +424,24 @@ type c13Notifier struct {
 	ep  int
 }
 
-func (n *c13Notifier) RegisterConfirmationsNtfn(*chainhash.Hash, []byte, uint32,
-	uint32, ...chainntnfs.NotifierOption) (*chainntnfs.ConfirmationEvent, error) {
+func (n *c13Notifier) RegisterConfirmationsNtfn(txid *chainhash.Hash, _ []byte, _ uint32,
+	_ uint32, _ ...chainntnfs.NotifierOption) (*chainntnfs.ConfirmationEvent, error) {
 
-	return &chainntnfs.ConfirmationEvent{
-		Confirmed: make(chan *chainntnfs.TxConfirmation, 1),
-		Cancel:    func() {},
-	}, nil
+	e := n.env
+	e.touch()
+	ch := make(chan *chainntnfs.TxConfirmation, 1)
+	e.mu.Lock()
+	defer e.mu.Unlock()
+	if !(e.alive && e.epoch == n.ep) {
+		return nil, c13ErrCrashed
+	}
+	if h, ok := e.confs[*txid]; ok {
+		// historical dispatch
+		ch <- &chainntnfs.TxConfirmation{BlockHeight: uint32(h)}
+	} else {
+		e.confSubs[*txid] = append(e.confSubs[*txid], ch)
+	}
+	return &chainntnfs.ConfirmationEvent{Confirmed: ch, Cancel: func() {}}, nil
 }
 
 func (n *c13Notifier) RegisterSpendNtfn(op *wire.OutPoint, _ []byte,
@@ -578,6 +664,10 @@ type c13Scenario struct {
 	hold  bool
 	// startHeight is the best height when the node first starts.
 	startHeight int32
+	// realNursery: IncubateOutputs goes to the REAL UtxoNursery on the real
+	// nursery store (instead of the nursery oracle)
+	realNursery bool
+	txs         map[string]*c13PendingConf
 	spec  []string // SPEC lines (contract plan for the model)
 	htlcs map[HtlcSetKey][]channeldb.HTLC
 	// closeEvent delivers the close event to a live arbitrator.
@@ -594,6 +684,11 @@ type c13Run struct {
 	arb *ChannelArbitrator
 	// closeFact is set once the scenario's commitment/closing tx confirmed.
 	closeFact bool
+	nursery   *UtxoNursery
+	// downtime: after a stop, this many environment steps happen while the
+	// node is down; restartIn counts them down (-1: node is up)
+	down      int
+	restartIn int
 }
 
 func c13Preimage(i byte) (lntypes.Preimage, lntypes.Hash) {
@@ -625,6 +720,7 @@ type c13Builder struct {
 	outRes     []lnwallet.OutgoingHtlcResolution
 	inRes      []lnwallet.IncomingHtlcResolution
 	preimages  map[string]lntypes.Preimage
+	txs        map[string]*c13PendingConf
 	labels     map[wire.OutPoint]string
 	witness    map[string]wire.TxWitness
 	spec       []string
@@ -639,6 +735,7 @@ func c13NewBuilder(local bool, tag byte, height uint32) *c13Builder {
 		witness:   map[string]wire.TxWitness{},
 		remoteTx:  map[string]*wire.MsgTx{},
 		preimages: map[string]lntypes.Preimage{},
+		txs:       map[string]*c13PendingConf{},
 	}
 }
 
@@ -754,6 +851,7 @@ func (b *c13Builder) incomingLegacy(idx uint64, expiry uint32) {
 	}
 	claim := wire.OutPoint{Hash: successTx.TxHash(), Index: 0}
 	b.labels[claim] = l + "/2"
+	b.txs[l] = &c13PendingConf{tx: successTx, op: op}
 	b.inRes = append(b.inRes, lnwallet.IncomingHtlcResolution{
 		SignedSuccessTx: successTx,
 		ClaimOutpoint:   claim,
@@ -790,6 +888,11 @@ func c13NewEnv(t *testing.T, dir string, scn *c13Scenario, crashAt []int) *c13En
 		confirmable: map[string]bool{},
 		offered:     map[wire.OutPoint]bool{},
 		incubated:   map[string]wire.OutPoint{},
+		pubTxs:      map[chainhash.Hash]bool{},
+		confs:       map[chainhash.Hash]int32{},
+		confSubs:    map[chainhash.Hash][]chan *chainntnfs.TxConfirmation{},
+		wantConf:    map[chainhash.Hash]*c13PendingConf{},
+		mempool:     map[wire.OutPoint]bool{},
 		ourWitness:  map[string]wire.TxWitness{},
 		labels:      map[wire.OutPoint]string{},
 		height:      100,
@@ -802,6 +905,12 @@ func c13NewEnv(t *testing.T, dir string, scn *c13Scenario, crashAt []int) *c13En
 		t.Fatalf("observer: %v", err)
 	}
 	e.observer = obs
+	if scn.realNursery {
+		e.nurseryObs, err = NewNurseryStore(&chainhash.Hash{}, &channeldb.DB{Backend: db})
+		if err != nil {
+			t.Fatalf("nursery observer: %v", err)
+		}
+	}
 	e.touch()
 	return e
 }
@@ -852,11 +961,13 @@ func (r *c13Run) start() {
 	cfg.Sweeper = &c13Sweeper{mockSweeper: newMockSweeper(), env: e, ep: ep}
 	cfg.PreimageDB = &c13Beacon{env: e, ep: ep}
 	cfg.PublishTx = func(tx *wire.MsgTx, _ string) error {
+		_ = tx
 		if !e.effect(ep, "P ep=%d publish", ep) {
 			return c13ErrCrashed
 		}
 		e.mu.Lock()
 		e.published++
+		e.pubTxs[tx.TxHash()] = true
 		e.mu.Unlock()
 		e.effectPoint(ep, "publish")
 		return nil
@@ -978,6 +1089,38 @@ func (r *c13Run) start() {
 		}()
 	}
 
+	if r.scn.realNursery {
+		ndb := &c13DB{DB: e.rawDB, env: e, ep: ep, nursery: true}
+		store, err := NewNurseryStore(&chainhash.Hash{}, &channeldb.DB{Backend: ndb})
+		if err != nil {
+			r.t.Fatalf("nursery store: %v", err)
+		}
+		sweeper := cfg.Sweeper
+		nur := NewUtxoNursery(&NurseryConfig{
+			ChainIO:   cfg.ChainIO,
+			ConfDepth: 1,
+			FetchClosedChannels: func(bool) ([]*channeldb.ChannelCloseSummary, error) {
+				e.mu.Lock()
+				defer e.mu.Unlock()
+				if e.pendingClose && !e.fullyClosed {
+					return []*channeldb.ChannelCloseSummary{{CloseHeight: e.closingHeight}}, nil
+				}
+				return nil, nil
+			},
+			FetchClosedChannel: func(*wire.OutPoint) (*channeldb.ChannelCloseSummary, error) {
+				e.mu.Lock()
+				defer e.mu.Unlock()
+				return &channeldb.ChannelCloseSummary{CloseHeight: e.closingHeight}, nil
+			},
+			Notifier:           cfg.Notifier,
+			PublishTransaction: cfg.PublishTx,
+			Store:              store,
+			SweepInput:         sweeper.SweepInput,
+			Budget:             DefaultBudgetConfig(),
+		})
+		r.nursery = nur
+		cfg.IncubateOutputs = nur.IncubateOutputs
+	}
 	db := &c13DB{DB: e.rawDB, env: e, ep: ep}
 	bl, err := newBoltArbitratorLog(db, *cfg, chainhash.Hash{}, cfg.ChanPoint)
 	if err != nil {
@@ -993,6 +1136,12 @@ func (r *c13Run) start() {
 	st, _ := e.observer.CurrentState(nil)
 	e.pf("START ep=%d st=%d pending=%v type=%d cheight=%d", ep, uint8(st), pending, ctype, cheight)
 	r.arb = arb
+	if r.nursery != nil {
+		// lnd starts the utxo nursery before the chain arbitrator
+		if err := r.nursery.Start(); err != nil && e.isAlive(ep) {
+			r.t.Fatalf("nursery start: %v", err)
+		}
+	}
 	if err := arb.Start(nil, newBeatFromHeight(h)); err != nil {
 		r.t.Fatalf("start: %v", err)
 	}
@@ -1051,12 +1200,28 @@ func (r *c13Run) flushConfirms() bool {
 	e.mu.Lock()
 	defer e.mu.Unlock()
 	did := false
-	for op := range e.offered {
+	cands := map[wire.OutPoint]bool{}
+	if e.alive {
+		for op := range e.offered {
+			cands[op] = true
+		}
+	}
+	for op := range e.mempool {
+		cands[op] = true
+	}
+	for op := range cands {
 		if _, ok := e.spends[op]; ok {
 			continue
 		}
 		if e.confirmable[e.label(op)] {
 			e.confirmOurs(op)
+			did = true
+		}
+	}
+	for h, pc := range e.wantConf {
+		if e.pubTxs[h] {
+			e.confirmTx(pc)
+			delete(e.wantConf, h)
 			did = true
 		}
 	}
@@ -1083,10 +1248,13 @@ func (r *c13Run) quiet(idle time.Duration) {
 	for {
 		select {
 		case <-e.crashCh:
-			if r.arb != nil {
-				_ = r.arb.Stop()
+			r.stopAll()
+			if r.down > 0 {
+				// the node stays down for the next `down` environment steps
+				r.restartIn = r.down
+				e.pf("DOWN steps=%d", r.down)
+				return
 			}
-			e.resolveWG.Wait()
 			r.start()
 			deadline = time.Now().Add(c13StepMax)
 			continue
@@ -1115,19 +1283,48 @@ func (r *c13Run) quiet(idle time.Duration) {
 	}
 }
 
+func (r *c13Run) stopAll() {
+	if r.arb != nil {
+		_ = r.arb.Stop()
+		r.arb = nil
+	}
+	if r.nursery != nil {
+		_ = r.nursery.Stop()
+		r.nursery = nil
+	}
+	r.env.resolveWG.Wait()
+}
+
 func (r *c13Run) setHeight(h int32) {
 	e := r.env
 	e.mu.Lock()
+	from := e.height
 	if h > e.height {
 		e.height = h
 	}
 	h = e.height
+	if e.alive {
+		// the live sweeper broadcasts its pending sweeps with the new block
+		for op := range e.offered {
+			e.mempool[op] = true
+		}
+	}
 	subs := append([]chan *chainntnfs.BlockEpoch(nil), e.epochSubs...)
 	e.mu.Unlock()
-	for _, ch := range subs {
-		select {
-		case ch <- &chainntnfs.BlockEpoch{Height: h}:
-		default:
+	// every block is delivered (the nursery graduates a class only at its height)
+	for x := from + 1; x <= h || x == from+1; x++ {
+		hh := x
+		if hh > h {
+			hh = h
+		}
+		for _, ch := range subs {
+			select {
+			case ch <- &chainntnfs.BlockEpoch{Height: hh}:
+			default:
+			}
+		}
+		if x >= h {
+			break
 		}
 	}
 	if arb := r.arb; arb != nil {
@@ -1145,9 +1342,15 @@ func (r *c13Run) run() {
 	if r.scn.init != nil {
 		r.scn.init(e)
 	}
+	r.restartIn = -1
 	r.start()
 	r.quiet(c13Idle)
 	for _, s := range r.scn.steps {
+		if r.restartIn == 0 {
+			r.restartIn = -1
+			r.start()
+			r.quiet(c13Idle)
+		}
 		if r.flushConfirms() {
 			r.quiet(c13Idle)
 		}
@@ -1156,6 +1359,15 @@ func (r *c13Run) run() {
 		e.mu.Unlock()
 		s.do(r)
 		e.touch()
+		if r.restartIn > 0 {
+			r.restartIn--
+		}
+		r.quiet(c13Idle)
+	}
+	if r.restartIn >= 0 {
+		r.restartIn = -1
+		r.flushConfirms()
+		r.start()
 		r.quiet(c13Idle)
 	}
 	// final settle: finished (channel fully closed and nothing running) or
@@ -1184,10 +1396,7 @@ func (r *c13Run) run() {
 		}
 		time.Sleep(2 * time.Millisecond)
 	}
-	if r.arb != nil {
-		_ = r.arb.Stop()
-	}
-	e.resolveWG.Wait()
+	r.stopAll()
 	e.mu.Lock()
 	e.alive = false
 	e.mu.Unlock()
@@ -1248,13 +1457,6 @@ func c13StepConfirmable(label string) c13Step {
 		e.mu.Lock()
 		defer e.mu.Unlock()
 		e.confirmable[label] = true
-		for op := range e.offered {
-			if e.label(op) == label {
-				if _, ok := e.spends[op]; !ok {
-					e.confirmOurs(op)
-				}
-			}
-		}
 	}}
 }
 
@@ -1283,6 +1485,37 @@ func c13StepPreimage(label string, pre lntypes.Preimage) c13Step {
 			default:
 			}
 		}
+	}}
+}
+
+// c13StepConfirmTx: a transaction published by a resolver (second-level success
+// tx) confirms at the current height - or as soon as somebody has published it.
+func c13StepConfirmTx(label string) c13Step {
+	return c13Step{name: "confirmtx " + label, do: func(r *c13Run) {
+		pc := r.scn.txs[label]
+		if pc == nil {
+			return
+		}
+		e := r.env
+		e.mu.Lock()
+		defer e.mu.Unlock()
+		h := pc.tx.TxHash()
+		if e.pubTxs[h] {
+			e.confirmTx(pc)
+		} else {
+			e.wantConf[h] = pc
+		}
+	}}
+}
+
+// c13StepBlocks mines n more blocks.
+func c13StepBlocks(n int32) c13Step {
+	return c13Step{name: fmt.Sprintf("blocks %d", n), do: func(r *c13Run) {
+		r.env.mu.Lock()
+		h := r.env.height + n
+		r.env.mu.Unlock()
+		r.env.pf("ENV height %d", h)
+		r.setHeight(h)
 	}}
 }
 
@@ -1509,7 +1742,14 @@ func c13Unilateral(name string, kind string, near, hold bool, rng *rand.Rand) *c
 		groups = append(groups, []c13Step{c13StepPreimage("h13", b.preimages["h13"]), c13StepConfirmable("h13")})
 	}
 	if legacy {
-		groups = append(groups, []c13Step{c13StepPreimage("h15", b.preimages["h15"]), c13StepConfirmable("h15/2")})
+		// preimage -> success tx published, output handed to the REAL nursery
+		// (preschool); the success tx confirms; CSV (4) matures; the nursery
+		// sweeps the kindergarten output
+		groups = append(groups, []c13Step{c13StepPreimage("h15", b.preimages["h15"]),
+			c13StepConfirmTx("h15"), c13StepBlocks(4), c13StepBlocks(5), c13StepConfirmable("h15/2"),
+			c13StepBlocks(1)})
+		scn.realNursery = true
+		scn.txs = b.txs
 	}
 	if near {
 		groups[0] = []c13Step{c13StepHeight(104), c13StepConfirmable("h12")}
@@ -1643,6 +1883,7 @@ type c13Case struct {
 	scn   int
 	crash []int
 	rep   int // repetition number (map-order dependent behaviour needs several restarts)
+	down  int // environment steps that happen while the node is down after each stop
 }
 
 func (c c13Case) id(scns []*c13Scenario) string {
@@ -1654,10 +1895,14 @@ func (c c13Case) id(scns []*c13Scenario) string {
 	for _, x := range c.crash {
 		p = append(p, strconv.Itoa(x))
 	}
-	if c.rep > 0 {
-		return s + strings.Join(p, "_") + "r" + strconv.Itoa(c.rep)
+	id := s + strings.Join(p, "_")
+	if c.down > 0 {
+		id += "d" + strconv.Itoa(c.down)
 	}
-	return s + strings.Join(p, "_")
+	if c.rep > 0 {
+		id += "r" + strconv.Itoa(c.rep)
+	}
+	return id
 }
 
 func c13RunCase(t *testing.T, scns []*c13Scenario, seed int64, c c13Case, out *os.File) (string, int) {
@@ -1678,8 +1923,8 @@ func c13RunCase(t *testing.T, scns []*c13Scenario, seed int64, c c13Case, out *o
 	if len(cr) > 0 {
 		crs = strings.Join(cr, ",")
 	}
-	e.caseHeader = fmt.Sprintf("%s scn=%s hold=%v crash=%s h0=%d", c.id(scns), scn.name, scn.hold, crs, e.height)
-	r := &c13Run{t: t, env: e, scn: scn}
+	e.caseHeader = fmt.Sprintf("%s scn=%s hold=%v crash=%s h0=%d down=%d", c.id(scns), scn.name, scn.hold, crs, e.height, c.down)
+	r := &c13Run{t: t, env: e, scn: scn, down: c.down}
 	r.run()
 	return e.buf.String(), e.writes
 }
@@ -1758,6 +2003,21 @@ func TestVerifC13(t *testing.T) {
 			}
 		}
 	}
+	// downtime: after the stop the chain moves on (next d environment steps)
+	// before the node comes back and replays what it missed. Every stop point
+	// of the legacy / real-nursery scenario with d = 1..4; a seeded sample
+	// (thorough: every stop point, d = 2) elsewhere.
+	for i := range scns {
+		for k := 1; k <= ns[i]; k++ {
+			if scns[i].realNursery {
+				for d := 1; d <= 4; d++ {
+					cases = append(cases, c13Case{scn: i, crash: []int{k}, down: d})
+				}
+			} else if thorough || rng.Intn(6) == 0 {
+				cases = append(cases, c13Case{scn: i, crash: []int{k}, down: 2})
+			}
+		}
+	}
 	// the same stop point in StateWaitingFullResolution many times: what a
 	// restart re-derives from Go maps may differ from restart to restart
 	reps := 8
@@ -1812,6 +2072,9 @@ func c13ParseCase(s string) c13Case {
 	if len(parts) > 2 {
 		c.rep, _ = strconv.Atoi(parts[2])
 	}
+	if len(parts) > 3 {
+		c.down, _ = strconv.Atoi(parts[3])
+	}
 	return c
 }
 
@@ -1820,7 +2083,7 @@ func (c c13Case) enc() string {
 	for _, x := range c.crash {
 		p = append(p, strconv.Itoa(x))
 	}
-	return fmt.Sprintf("%d:%s:%d", c.scn, strings.Join(p, ","), c.rep)
+	return fmt.Sprintf("%d:%s:%d:%d", c.scn, strings.Join(p, ","), c.rep, c.down)
 }
 
 type c13Result struct {
